@@ -239,6 +239,8 @@ func RunScenario(t *testing.T, s *Scenario, chk Checker, keepLog bool) (rep *Run
 		}
 		chain := s.Chain()
 		bstream.GetProtocolFirstStreamableBlock = s.First
+		os.Setenv("SUBSTREAMS_WASM_RUNTIME", runtimeFor(s.Pkg))
+		defer os.Setenv("SUBSTREAMS_WASM_RUNTIME", SimVMName)
 		nt2 := s.NTier2
 		if nt2 == 0 {
 			nt2 = 1
